@@ -99,6 +99,8 @@ func main() {
 		os.Exit(runReplay(os.Args[2]))
 	case "selftest":
 		os.Exit(runSelfTest())
+	case "warm":
+		os.Exit(runWarm())
 	default:
 		fatal2("unknown command %q", os.Args[1])
 	}
@@ -262,6 +264,21 @@ func runReplay(path string) int {
 	fmt.Printf("not reproduced: %s (violations now: %d)\n", key, len(out.Violations))
 	for _, v := range out.Violations {
 		fmt.Printf("  other: %s: %s\n", v.Key(), v.Detail)
+	}
+	return 0
+}
+
+// runWarm builds every worker once so that later checks hit the build cache.
+func runWarm() int {
+	scratch := scratchDir()
+	defer os.RemoveAll(scratch)
+	for _, engine := range []string{"gensim", "inflsim"} {
+		t0 := time.Now()
+		if _, err := buildEnv(scratch, engine); err != nil {
+			fmt.Printf("ERROR warm %s: %v\n", engine, err)
+			return 2
+		}
+		fmt.Printf("warmed %s in %.1fs\n", engine, time.Since(t0).Seconds())
 	}
 	return 0
 }
